@@ -1,6 +1,8 @@
-"""Per-property configuration of bin/check."""
+"""Configuration of bin/check: one props/CXX.json per claimed property."""
+import json, os, glob
+ROOT = os.path.dirname(os.path.dirname(os.path.abspath(__file__)))
 
-ALLOWED_AXIOMS = set()  # no axiom is used; stdlib axioms would be listed here and in DESIGN.md section 6
+ALLOWED_AXIOMS = set()  # no axiom is used; a stdlib axiom would be listed here and in DESIGN.md section 6
 
 TRUSTED_BASE = [
     "Coq 8.16.1 kernel and its bytecode VM (vm_compute); native_compute not used",
@@ -10,28 +12,11 @@ TRUSTED_BASE = [
     "Go toolchain; encoding/json",
 ]
 
-NOT_CLAIMED = {}
+PROPS = {}
+for f in sorted(glob.glob(os.path.join(ROOT, "props", "C*.json"))):
+    PROPS[os.path.basename(f)[:-5]] = json.load(open(f))
 
-PROPS = {
-    "C18": {
-        "level_text": "C18_location proves, for every body and position, that the location arithmetic as coded (regexp match list + scan) equals the "
-                      "single-pass line/column specification, with LF, CRLF and bare CR each ending one line (C18_lf, C18_crlf, C18_cr); the Go code is "
-                      "tied to the model by differential runs of GetLocation and of graphql.Do on erroring requests with known offending byte offsets.",
-        "level_note": "Proof is about the Gallina model get_location; Go code = model is checked on generated inputs only. Columns accepted in bytes or code points. "
-                      "Known finding C18-mixed-offset-units (multi-byte character before the token) is excluded by its signature. Syntax-error viable-prefix clause and "
-                      "response paths are judged through the C03 / C01 models.",
-        "run_module": "Run.C18run",
-        "case_type": "c18case",
-        "shard": 400,
-        "rule": "getlocation: random bodies over {a,b,space,LF,CR,CRLF,TAB,2-byte,4-byte,BOM,#,\",{,}} with a random position, "
-                "GetLocation called directly; do-error: a token list with one offending token (bad character, stray brace, unknown field, "
-                "failing resolver) laid out with random LF/CR/CRLF/tab/comma/comment separators, run through graphql.Do. "
-                "Non-trivial: a line terminator or multi-byte character precedes the position. Distinct by hash of the case.",
-        "modelled": "language/location.GetLocation (regexp match list + scan) is modelled by Lang/Location.v get_location; "
-                    "for errors reported by Do only the reported (line, column) is judged against spec_location of the byte offset "
-                    "at which the harness placed the offending token",
-        "status": "C18_location (model = single-pass spec, all bodies and positions), C18_lf / C18_crlf / C18_cr proved; "
-                  "node-location and path clauses are covered through the parser/executor models where those exist",
-        "assumptions": ["columns may be counted in bytes or in code points (the property does not fix the unit); the line must be exact"],
-    },
-}
+NOT_CLAIMED = {}
+p = os.path.join(ROOT, "props", "not_claimed.json")
+if os.path.exists(p):
+    NOT_CLAIMED = json.load(open(p))
